@@ -158,11 +158,15 @@ def parse(trace_path, folder, log_path=None):
                 raise TraceError(f"unsupported write call {call} on {path}")
             data = strs[0] if strs else b""
             if path == log_path:
-                for rec in data.decode().splitlines():
-                    if rec.strip():
-                        name, kw, phase, _pid = json.loads(rec)
-                        if phase == "call":
-                            ev.append(("call", name, kw))
+                try:
+                    recs = [json.loads(rec) for rec in data.decode().splitlines() if rec.strip()]
+                except ValueError:      # (UnicodeDecodeError is one)
+                    # not the call log: the descriptor fallback above matched a pipe / socket of ANOTHER process (pool workers) that
+                    # happens to carry the same descriptor number while the log is open elsewhere
+                    continue
+                for name, kw, phase, _pid in recs:
+                    if phase == "call":
+                        ev.append(("call", name, kw))
             else:
                 ev.append(("write", path, data[:ret]))
         elif call == "close":
